@@ -10,6 +10,7 @@ import (
 	"errors"
 	"reflect"
 	"strconv"
+	"time"
 )
 
 // ---- descriptors ---------------------------------------------------------------------
@@ -321,6 +322,34 @@ type vWorld struct {
 	seg     []string
 	resCyc  bool
 	permCyc bool
+
+	// symbolic clock (C20)
+	clocked  bool
+	now      int64
+	readings []int64
+	onCB     func(w *vWorld, r *vReg, ci CallbackInfo)
+}
+
+func (w *vWorld) gotCallback(r *vReg, ci CallbackInfo) {
+	r.cbs = append(r.cbs, ci)
+	if w.onCB != nil {
+		w.onCB(w, r, ci)
+	}
+}
+
+// vClock is the digclock.Clock installed by the C20 harness.  Now returns
+// sequence-numbered instants; the real (symbolic) readings are kept aside.
+type vClock struct{ w *vWorld }
+
+func (c vClock) Now() time.Time {
+	k := len(c.w.readings)
+	c.w.readings = append(c.w.readings, c.w.now)
+	return time.Unix(0, int64(k))
+}
+
+func (c vClock) Since(t time.Time) time.Duration {
+	k := int(t.UnixNano())
+	return time.Duration(c.w.now - c.w.readings[k])
 }
 
 func (w *vWorld) record(s string) {
@@ -449,8 +478,11 @@ func (w *vWorld) makeFn(r *vReg) reflect.Value {
 			}
 		}
 		w.stack = append(w.stack, e)
-		if w.clockFn != nil {
-			e.tEnter = w.clockFn(w)
+		if w.clocked {
+			e.tEnter = w.now
+			dt := verifNdI64("dt")
+			verifAssume(dt >= 0 && dt < 1<<40)
+			w.now += dt
 		}
 		if w.onEnter != nil {
 			w.onEnter(w, e)
@@ -483,8 +515,8 @@ func (w *vWorld) makeFn(r *vReg) reflect.Value {
 			plan = f.fault[e.n]
 		}
 		e.outcome = plan
-		if w.clockFn != nil {
-			e.tExit = w.clockFn(w)
+		if w.clocked {
+			e.tExit = w.now
 		}
 		w.stack = w.stack[:len(w.stack)-1]
 		e.done = true
@@ -605,7 +637,7 @@ func (f *vFunc) provideOpts(r *vReg, w *vWorld) []ProvideOption {
 		opts = append(opts, As(new(vI0), new(vI1)))
 	}
 	if f.callback {
-		opts = append(opts, WithProviderCallback(func(ci CallbackInfo) { r.cbs = append(r.cbs, ci) }))
+		opts = append(opts, WithProviderCallback(func(ci CallbackInfo) { w.gotCallback(r, ci) }))
 	}
 	return opts
 }
@@ -622,7 +654,7 @@ func (w *vWorld) register(f *vFunc, s int) (*vReg, vOutcome) {
 	if f.kind == vDecor {
 		var opts []DecorateOption
 		if f.callback {
-			opts = append(opts, WithDecoratorCallback(func(ci CallbackInfo) { r.cbs = append(r.cbs, ci) }))
+			opts = append(opts, WithDecoratorCallback(func(ci CallbackInfo) { w.gotCallback(r, ci) }))
 		}
 		o = vGuard(func() error { return w.scopes[s].Decorate(r.fnv.Interface(), opts...) })
 	} else {
